@@ -5,6 +5,7 @@ Property theorems only.
 import Bourse.Model.Ops
 import Bourse.Lemmas.Frame
 import Bourse.Lemmas.RefLedgerStep
+import Bourse.Lemmas.NoOverflow
 
 namespace Bourse.Props.C03
 open Bourse
@@ -259,5 +260,13 @@ example :
       .cap .bid 7 3 (some 11), .time 3, .cap .bid 2 4 (some 9), .time 4, .modify 3 (some 11) none]
     (b.orders.map fun e => (e.order.vol, e.order.svol)) = [(0, 5), (1, 5), (0, 7), (0, 2)] ∧
     (List.range 4).map (fun id => tradedOf id b.trades) = [5, 4, 7, 2] := by decide
+
+/-- `volume_conserved_history` for valid histories as the property states them. -/
+theorem volume_conserved_history_valid (t0 tick : Nat) (trading : Bool) (ops : List Op)
+    (h : ValidHistory t0 tick trading ops) (hm : ∀ op ∈ ops, NoVolModify op) :
+    let b := (Book.new t0 tick trading).run ops
+    (∀ (id : Nat) (e : Entry), b.orders[id]? = some e → e.order.vol + tradedOf id b.trades = e.order.svol) ∧
+    (∀ tr ∈ b.trades, tr.active < b.orders.length ∧ tr.passive < b.orders.length) :=
+  volume_conserved_history t0 tick trading h.tick_pos ops h.ops_valid hm h.noFault
 
 end Bourse.Props.C03
